@@ -108,3 +108,11 @@ Record cache := {
   c_lg : N; c_rg : N; c_pat : N; c_clip : N; c_mask : N; c_filter : N; c_image : N;
   c_clips : list string; c_masks : list string; c_filters : list string; c_paint : list string
 }.
+
+(* XML level (roxmltree) seen by svgtree::parse *)
+Inductive attr_ns := ANS_None | ANS_Svg | ANS_Xlink | ANS_Xml | ANS_Foreign.
+Definition attr_ns_eqb (a b : attr_ns) : bool :=
+  match a, b with
+  | ANS_None, ANS_None | ANS_Svg, ANS_Svg | ANS_Xlink, ANS_Xlink | ANS_Xml, ANS_Xml | ANS_Foreign, ANS_Foreign => true
+  | _, _ => false
+  end.
